@@ -558,6 +558,9 @@ def gen_c04(seed, tier, cap_for=lambda k: 2):
                         sc.ks_set_tweak(kind, o, None, sc.rng.randrange(1, bs + 1))
                     elif r < 0.12:
                         sc.ks_set_tweaked_key(kind, o, sc.rb(sc.rng.choice((1, 2)) * bs))
+                    elif r < 0.16:
+                        # plain key straight into the public inner schedule, then tweak changes go on
+                        sc.op("ks_set_key", k=kind, o=o, t=1, key=hx(sc.rb(sc.rng.randrange(bs, 3 * bs + 1))), pk=sc.pl())
                     else:
                         sc.ks_set_tweak(kind, o, sc.rb(sc.rng.randrange(1, bs + 1)))
                     if sc.rng.random() < 0.35:
@@ -1259,6 +1262,8 @@ def check_C14(work, tier, seed):
     # spec -> impl: one call sequence per transition of the abstract CTR machine
     lines += backend_sweep(work, b, "C14", seed + 77, lambda cf: graph_ctr_scenarios(work, seed, cf, Outcome()), out)
     graph_ctr_scenarios(work, seed, lambda k: 2, out, kinds=())      # records graph size in the evidence
+    lines += backend_sweep(work, b, "C14", seed + 81, lambda cf: graph_par_scenarios(work, seed, cf, Outcome()), out)
+    graph_par_scenarios(work, seed, lambda k: 2, out, kinds=())
     note_distinct(out, lines, ("o", "len", "n", "nr", "ret", "key_null", "tweak_null", "ctr_null", "in_null", "outnull"))
     out.samples = sample_events([x for x in lines if '"ret":0' in x], maxlen=240)
     return out, dict(
@@ -2659,4 +2664,55 @@ def graph_tweak_scenarios(work, seed, out):
                     ln = int(a[0])
                     sc.ks_set_tweak(kind, 0, sc.rb(bs + 1), 0 if ln == 0 else bs + 1)
             sc.ks_crypt(True, kind, 0, sc.rb(bs), t=1)
+    return sc
+
+
+def graph_par_scenarios(work, seed, cap_for, out, kinds=("s128", "s64", "mantis")):
+    """every edge of Gen_Par's state graph, concretised for each kind"""
+    init, edges, nn = dump_graph(work, "Gen_Par", "Gen_Par")
+    seqs = edge_cover(init, edges)
+    out.notes.append("Gen_Par graph: %d states, %d edges, %d edge-covering call sequences per kind" % (nn, len(edges), len(seqs)))
+    if not kinds:
+        out.mc.append({"model": "Gen_Par (state graph dumped for scenario generation)", "states": nn,
+                       "transitions": len(edges), "ok": True, "violated": None, "expected_to_fail": False, "actions": {}})
+    sc = Sc(seed + 81)
+    nblk = {"zero": 0, "one": 1, "below": 7, "batch": 8, "above": 19}
+    for kind in kinds:
+        bs = BS[kind]
+        for si, seq in enumerate(seqs):
+            sc.reset("g-par-%s-%d" % (kind, si))
+            for lab in seq:
+                name, a = _label(lab)
+                if name == "DoInit":
+                    fail = a[0] == "TRUE"
+                    sc.par_init(kind, 0, cap=cap_for(kind), fail=1 if fail else None,
+                                prefill=sc.rng.choice([None, 0, 0x5A]))
+                elif name == "DoCleanup":
+                    sc.par_cleanup(kind, 0)
+                elif name == "DoSetKey":
+                    cls = a[0]
+                    kw = dict(rounds=7, mode=sc.rng.randrange(2))
+                    if cls == "valid":
+                        sc.par_set_key(kind, 0, valid_key(sc, kind), **kw)
+                    elif cls == "null":
+                        sc.par_set_key(kind, 0, None, bs, **kw)
+                    elif cls == "short":
+                        sc.par_set_key(kind, 0, sc.rb(bs - 1 if kind != "mantis" else 15), **kw)
+                    elif cls == "long":
+                        sc.par_set_key(kind, 0, sc.rb(3 * bs + 1 if kind != "mantis" else 17), **kw)
+                    elif kind == "mantis":
+                        sc.par_set_key(kind, 0, sc.rb(16), rounds=sc.rng.choice((0, 4, 9, 77)), mode=1)
+                    else:
+                        sc.par_set_key(kind, 0, b"", 0)
+                elif name == "DoSwap":
+                    if kind == "mantis":
+                        sc.par_swap(0)
+                else:
+                    cls = a[0]
+                    n = (3 * bs + sc.rng.randrange(1, bs)) if cls == "ragged" else nblk[cls] * bs
+                    tw = sc.rb((n // bs + 1) * 8) if kind == "mantis" else None
+                    sc.par_crypt(kind, 0, sc.rb(n), enc=(name == "DoEncrypt"), tweak=tw[:n] if tw is not None and n % 8 == 0 else tw)
+            sc.par_crypt(kind, 0, sc.rb(2 * bs), enc=True, tweak=sc.rb(16) if kind == "mantis" else None)
+            sc.par_cleanup(kind, 0)
+            sc.quiesce()
     return sc
